@@ -57,7 +57,9 @@ def cases(draw):
             continue
         used.add(path)
         spec = [['r', 1, 0]] if only_empty else draw(gen.content_spec(mn, mx))
-        mtime = draw(st.integers(1, 4_102_444_800)) * 10 ** 9 + draw(st.integers(0, 999_999_999))
+        mtime = draw(st.one_of(st.sampled_from([0, 1, 999_999_999, 10 ** 9, 2 ** 31 * 10 ** 9, 2 ** 32 * 10 ** 9 + 5]),
+                               st.integers(1, 4_102_444_800).map(lambda x: x * 10 ** 9), st.integers(1, 4_102_444_800).map(lambda x: x * 10 ** 9))) \
+            + (draw(st.integers(0, 999_999_999)) if draw(st.booleans()) else 0)
         files.append({'path': path, 'content': spec, 'mtime_ns': mtime})
     # directories that exist
     alldirs = sorted({'/'.join(f['path'].split('/')[:k]) for f in files for k in range(1, f['path'].count('/') + 1)})
@@ -95,9 +97,15 @@ def cases(draw):
             target.append({'path': f['path'], 'kind': k, 'seed': draw(st.integers(0, 99))})
     for _ in range(draw(st.integers(0, 2))):
         target.append({'path': 'unrelated/u' + draw(gen.name()), 'kind': 'unrelated', 'seed': draw(st.integers(0, 99))})
-    return {'settings': s, 'concurrent': draw(st.sampled_from([1, 1, 2, 3, 5, 8, 9, 16])),
+    case = {'settings': s, 'concurrent': draw(st.sampled_from([1, 1, 2, 3, 5, 8, 9, 16])),
             'backend': draw(st.sampled_from(['mem', 'amem', 'local'])), 'files': files, 'symlinks': symlinks,
             'args': args, 'relative_args': draw(st.booleans()), 'target': target, 'big': False}
+    if draw(st.integers(0, 11)) == 0:
+        # a backend with upload latency and few connections: the bounded chunk queue behind the producer fills up
+        case.update(backend='mem', concurrent=draw(st.sampled_from([1, 1, 2])), slow_ms=draw(st.sampled_from([15, 20])))
+        case['files'] = files + [{'path': 'fslow', 'content': [['r', 9, draw(st.integers(14, 22)) * mx + 3]], 'mtime_ns': 10 ** 18 + 3}]
+        case['args'] = ['.']
+    return case
 
 
 def strategy(tier):
@@ -227,6 +235,10 @@ def _run(case, work):
         pre[p] = (body, 10 ** 18 + t['seed'])
 
     store = membackend.Store()
+    if case.get('slow_ms'):
+        lat = case['slow_ms'] / 1000.0
+        store.delay = lambda op_, name_: lat if op_ in ('upload_stream', 'exists') else 0
+        classes.append('slow-backend')
     backend = world.backend_for(case['backend'], store, repo_dir)
     password = b'pw-' + bytes([65 + n])
     try:
